@@ -385,6 +385,9 @@ func runOnce(sc Scenario, seed string) (outcome, []sim.Event, bool) {
 				if !oracle.Equal(a.Group, b.Group) || !oracle.Equal(oracle.BaseMul(sum), a.Group) {
 					bad = "the two finishers' shares do not combine to one common public key"
 				}
+				if string(a.ChainKey) != string(b.ChainKey) {
+					bad = "the two finishers hold different chain keys (their derived keys will differ)"
+				}
 			}
 		} else if bad == "" {
 			// same group key and table among finishers, own share matches table
@@ -407,6 +410,9 @@ func runOnce(sc Scenario, seed string) (outcome, []sim.Event, bool) {
 				}
 				if v.Aux != first.Aux {
 					bad = fmt.Sprintf("honest finishers %s and %s disagree on auxiliary keys", f.id, done[0].id)
+				}
+				if string(v.ChainKey) != string(first.ChainKey) {
+					bad = fmt.Sprintf("honest finishers %s and %s hold different chain keys (their derived keys will differ)", f.id, done[0].id)
 				}
 				if strings.HasSuffix(su.proto, "-refresh") && !oracle.Equal(v.Group, su.group) {
 					bad = fmt.Sprintf("refresh changed the group key at %s", f.id)
